@@ -1,6 +1,7 @@
 import IGVerif.Gen.Facts
 import IGVerif.Spec.Symbols
 import IGVerif.Proofs.DenoteLeaves
+import IGVerif.Proofs.ComboMulti
 /-! C01 — components and combinations are parsed exactly as written. -/
 namespace IGVerif.C01
 open IGVerif
@@ -51,5 +52,80 @@ theorem separate_annotations_implicit_conjunction (h₁ h₂ : Hdr) (o₁ o₂ :
     denoteS (.mk [.ann h₁ o₁ e₁, .ann h₂ o₂ e₂]) =
       sortFields [(f, combineN opBAND ((denoteE [] [] e₁).withMeta (hdrMeta h₁)) ((denoteE [] [] e₂).withMeta (hdrMeta h₂)))] := by
   simp [denoteS, denoteSimple, denoteCombos, denoteNested, hf₁, hf₂, addField]
+
+/-! ### The combination parser (model of `ParseIntoNodeTree`, tied to the code by the `combo`
+    correspondence stream): round trip from the notation to the tree -/
+
+/-- **Round trip, binary combinations of any depth.** For every fully parenthesised expression
+    over the three documented operators whose values are non-empty, trimmed and free of
+    parentheses and brackets, the combination parser returns — for the rendered text, as a
+    top-level or nested call, with any fuel not below the nesting depth — exactly the tree the
+    notation denotes, the unchanged text, and no error. -/
+theorem combination_parser_round_trip (o : Op3) (l r : Expr) (h : Combo.BinW (.comb o l r)) (nested : Bool)
+    (fuel : Nat) (hf : Combo.depth (.comb o l r) ≤ fuel) :
+    ∃ n, Combo.parse false fuel (renderE (.comb o l r)) nested
+          = .res ⟨n, renderE (.comb o l r), Combo.cNoError⟩
+       ∧ Combo.toP n = denoteE [] [] (.comb o l r) :=
+  ⟨_, Combo.parse_render o l r h nested fuel hf, Combo.toP_treeOf _ h⟩
+
+/-- **Round trip, chains.** `(e₁ [o] e₂ [o] … [o] eₙ)` is parsed into the left-nested tree the
+    notation denotes; the returned text is the chain with the parentheses the parser introduces. -/
+theorem combination_parser_chain (o : Op3) (e₁ e₂ : Expr) (es : List Expr) (h₁ : Combo.BinW e₁) (h₂ : Combo.BinW e₂)
+    (hes : ∀ x ∈ es, Combo.BinW x) (nested : Bool) (fuel : Nat)
+    (hf : Combo.depth (Combo.assocL o e₁ (e₂ :: es)) ≤ fuel) :
+    ∃ n, Combo.parse false fuel (renderE (.chain o e₁ e₂ es)) nested
+          = .res ⟨n, renderE (Combo.assocL o e₁ (e₂ :: es)), Combo.cNoError⟩
+       ∧ Combo.toP n = denoteE [] [] (.chain o e₁ e₂ es) :=
+  ⟨_, Combo.parse_chain o e₁ e₂ es h₁ h₂ hes nested fuel hf, Combo.toP_chain o e₁ e₂ es h₁ h₂ hes⟩
+
+/-- **Round trip, shared text.** `(l (a [o] b) r)` — text inside the component's parentheses
+    but outside the inner combination — is parsed into the combination of `a` and `b` carrying
+    `l` / `r` (trimmed, either may be absent) as its shared left / right text, which is what the
+    notation denotes. -/
+theorem combination_parser_shared_text (sl sr : Option Str) (o : Op3) (a b : Expr) (ha : Combo.BinW a)
+    (hb : Combo.BinW b) (hsl : ∀ t, sl = some t → Combo.SWord t) (hsr : ∀ t, sr = some t → Combo.SWord t)
+    (nested : Bool) (fuel : Nat) (hf : Combo.depth (.comb o a b) ≤ fuel) :
+    ∃ n, Combo.parse false fuel (renderE (.shared sl (.comb o a b) sr)) nested
+          = .res ⟨n, renderE (.shared sl (.comb o a b) sr), Combo.cNoError⟩
+       ∧ Combo.toP n = denoteE [] [] (.shared sl (.comb o a b) sr) :=
+  ⟨_, Combo.parse_shared sl sr o a b ha hb hsl hsr nested fuel hf, Combo.toP_shared sl sr o a b ha hb⟩
+
+/-- **Round trip, several combinations in one component.** `(l (a₁ [o₁] b₁) m (a₂ [o₂] b₂) r)`:
+    both combinations are parsed as written, the first carries `l` / `m`, the second `m` / `r`
+    as shared text, and they are joined by the within-component conjunction in source order —
+    the documented meaning. -/
+theorem combination_parser_two_combinations (l m r : Option Str) (o₁ o₂ : Op3) (a₁ b₁ a₂ b₂ : Expr)
+    (ha₁ : Combo.BinW a₁) (hb₁ : Combo.BinW b₁) (ha₂ : Combo.BinW a₂) (hb₂ : Combo.BinW b₂)
+    (hl : ∀ t, l = some t → Combo.SWord t) (hm : ∀ t, m = some t → Combo.SWord t) (hr : ∀ t, r = some t → Combo.SWord t)
+    (nested : Bool) (fuel : Nat) (hf₁ : Combo.depth (.comb o₁ a₁ b₁) ≤ fuel) (hf₂ : Combo.depth (.comb o₂ a₂ b₂) ≤ fuel) :
+    ∃ n, Combo.parse false fuel (renderE (.multi2 l (.comb o₁ a₁ b₁) m (.comb o₂ a₂ b₂) r)) nested
+          = .res ⟨n, renderE (.multi2 l (.comb o₁ a₁ b₁) m (.comb o₂ a₂ b₂) r), Combo.cNoError⟩
+       ∧ Combo.toP n = denoteE [] [] (.multi2 l (.comb o₁ a₁ b₁) m (.comb o₂ a₂ b₂) r) :=
+  ⟨_, Combo.parse_multi2 l m r o₁ o₂ a₁ b₁ a₂ b₂ ha₁ hb₁ ha₂ hb₂ hl hm hr nested fuel hf₁ hf₂,
+    Combo.toP_multi2 l m r o₁ o₂ a₁ b₁ a₂ b₂ ha₁ hb₁ ha₂ hb₂⟩
+
+/-- a value without parentheses and brackets is one leaf -/
+theorem combination_parser_plain_value (t : Str) (h : Combo.Plain t) (nested : Bool) (fuel : Nat) :
+    Combo.parse false (fuel+1) t nested = .res ⟨.leaf (Combo.trimSp t), t, Combo.cNoCombinations⟩ :=
+  Combo.parse_plain t h nested fuel
+
+/-- the scan records, for every rendered expression at every position and nesting level, one
+    complete boundary with the written operator at the written position, and leaves the lower
+    levels alone -/
+theorem scan_records_the_written_combination (e : Expr) (hb : Combo.Bin e) (cs : Str) (i : Nat) (st : Combo.St)
+    (h : st.modes.length ≤ st.lm.length) :
+    ∃ lm', Combo.scan '(' ')' (renderE e ++ cs) i st
+            = Combo.scan '(' ')' cs (i + (renderE e).length) { st with lm := lm' }
+      ∧ Combo.Ext st.modes.length st.lm lm' (Combo.ents e i) :=
+  Combo.scan_render e hb cs i st h
+
+/-- the hypotheses are satisfiable: `(a [AND] (b c [OR] d))` -/
+example : Combo.BinW (.comb .AND (.leaf ['a']) (.comb .OR (.leaf ['b', ' ', 'c']) (.leaf ['d']))) := by
+  refine .comb _ _ _ (.leaf _ ?_ ⟨?_, ?_, ?_⟩) (.comb _ _ _ (.leaf _ ?_ ⟨?_, ?_, ?_⟩) (.leaf _ ?_ ⟨?_, ?_, ?_⟩)) <;>
+    simp [Combo.Plain]
+
+/-- shared text such as `the x` satisfies the side condition -/
+example : Combo.SWord ['t', 'h', 'e', ' ', 'x'] := by
+  refine ⟨?_, ?_, ?_, ?_⟩ <;> simp [Combo.Plain, Combo.isWs, Combo.isIgnoredShared]
 
 end IGVerif.C01
